@@ -111,6 +111,12 @@ def gen(ctx):
         yield scenario(LOGIN + [quit_group] + LOGIN + [R(b"250 deleted"), R(b"200 noop"), R(b"221 bye")], files, OPEN + [b"exit"] + after)
         yield scenario(LOGIN + [quit_group] + LOGIN + [R(b"250 deleted"), R(b"200 noop"), R(b"221 bye")], files, OPEN + [b"EXIT now please"] + after)
     yield scenario(LOGIN + [R(b"250 deleted"), R(b"200 noop"), R(b"221 bye")], files, [b"exit"] + after)
+    # a get that is refused because the local file exists, followed - commands later - by a library error in another command:
+    # the file that get refused to touch is still there
+    for later in ([b"pwd"], [b"noop", b"ls"], [b"cd pub", b"size remote.bin"], [b"close", b"open 127.0.0.1 1"]):
+        for fail in ("X", "r" + b"garbage without code\r\n".hex()):
+            groups = LOGIN + [R(b"200 ok")] * (len(later) - 1) + [fail] + LOGIN + [R(b"200 noop"), R(b"221 bye")]
+            yield scenario(groups, files, OPEN + [b"get keep.txt", b"get remote.bin data.bin"] + later + [b"open 127.0.0.1 $PORT", b"user", b"secret", b"noop", b"exit"])
     # a library error must drop the connection so that a following open starts clean (leftover reply in the old session)
     yield scenario([R(b"220 one"), R(b"331 pw"), R(b"230 in"), R(b"200 type"), "r" + b"abc\r\n".hex() + "," + R(b"555 LEFTOVER"), R(b"220 two"), R(b"331 pw"), R(b"230 in"), R(b"200 type"), R(b"200 noop")],
                    files, OPEN + [b"noop"] + OPEN + [b"noop", b"exit"])
